@@ -464,7 +464,25 @@ Fixpoint write_msrs (m : mode) (x : fst8) (l : list cst) (acc : list (string * s
               write_msrs m x r (acc ++ [(c_measure (k_c k), nv)]) s1
   end.
 
-(* formula_terms on the owning coordinate variable and on its bounds variable *)
+(* formula_terms on the owning coordinate variable and on its bounds variable:
+   per term, (term, variable) for the coordinate and (term, bounds variable
+   or variable) for the coordinate's bounds *)
+Definition ft_terms (f : field) (r : fref) (ko : cst) (ancvars : list string) (s : wst)
+  : list ((string * string) * (string * string)) :=
+  let z := hd 0%nat (k_axes ko) in
+  concat (map (fun t =>
+    match snd t with
+    | None => []
+    | Some j => match nth_error ancvars j, nth_error (f_anc f) j with
+                | Some nv, Some ka =>
+                  let b := match assoc nv (w_bnds s) with
+                           | Some bn => if nmem z (k_axes ka) then Some bn else None
+                           | None => None end in
+                  [((fst t, nv), (fst t, match b with Some bn => bn | None => nv end))]
+                | _, _ => []
+                end
+    end) (r_terms r)).
+
 Definition write_formula (m : mode) (f : field) (dims : list cst) (x : fst8) (ancvars : list string)
            (s : wst) : wst :=
   match f_ref f with
@@ -474,22 +492,9 @@ Definition write_formula (m : mode) (f : field) (dims : list cst) (x : fst8) (an
     | None => s
     | Some ko =>
       if option_eqb String.eqb (prop_of (c_props (k_c ko)) "standard_name") (Some (r_sn r)) then
-        let z := hd 0%nat (k_axes ko) in
-        let terms := concat (map (fun t =>
-            match snd t with
-            | None => []
-            | Some j => match nth_error ancvars j, nth_error (f_anc f) j with
-                        | Some nv, Some ka =>
-                          let b := match assoc nv (w_bnds s) with
-                                   | Some bn => if nmem z (k_axes ka) then Some bn else None
-                                   | None => None end in
-                          [((fst t, nv), (fst t, match b with Some bn => bn | None => nv end))]
-                        | _, _ => []
-                        end
-            end) (r_terms r)) in
-        match terms with
+        match ft_terms f r ko ancvars s with
         | [] => s
-        | _ =>
+        | terms =>
           let enabled := negb (m_post m) || fx_formula (m_var m) in
           match lookup_nat (r_owner r) (x_dimvar x) with
           | None => s
